@@ -1,19 +1,29 @@
 """C17 — version helpers (oslo_utils/versionutils.py)"""
-import sys, os, random
+import sys, os, random, re, operator
 import gen_versionutils
 import pep440
 
 ID = 'C17'
-GEN = [('Gen/Versionutils.v', gen_versionutils.generate), ('Gen/VersionutilsCode.v', gen_versionutils.generate_code)]
-EQUIV_FILES = ['Proofs/C17.v']
+GEN = [('Gen/Versionutils.v', gen_versionutils.generate), ('Gen/VersionutilsCode.v', gen_versionutils.generate_code),
+       ('Gen/C17_Code.v', gen_versionutils.generate_code17)]
+EQUIV_FILES = ['Proofs/C17.v', 'Proofs/C17_Equiv.v']
 EXTRACT = 'Extract/C17_x.v'
-TRUSTED = ['packaging.version ordering is a contract (abstract order in the theorems); tested against tools/pep440.py (written from the PEP)',
-           'CPython int()/str() and re modelled in Base/PyInt.v, Base/Regex.v; regex ASTs regenerated from the source patterns']
+TRUSTED = ['packaging.version is a contract: an abstract type with parse (None = InvalidVersion, a ValueError), <=, == and .major; the theorems hold '
+           'for every such structure. The clauses the model relies on (totality, transitivity, antisymmetry up to ==, < > != derived from <= and ==, '
+           '.major = first release number, which strings parse) are TESTED on every run on the generated PEP 440 versions, and the order is compared '
+           'with tools/pep440.py, an independent implementation written from the PEP text',
+           'CPython int()/str() and re modelled in Base/PyInt.v, Base/Regex.v; int() is tied by its own correspondence op on every run; '
+           'regex ASTs and the template are regenerated from the source patterns through re._parser',
+           'translator: py2gal (statement level, extended in tools/gen/gen_versionutils.py for re.sub/split/generator expressions/reduce/'
+           'isinstance on a typed entry point/try-except-raise-from/packaging objects) with *_equiv lemmas against the hand model']
 ASSUMPTIONS = ['int() digit-count limit (4300) not modelled; generated inputs stay below it',
-               'suffix-stripping and predicate parsing are tied by correspondence only (no universal theorem about the regex yet)']
-RULE = ('component tuples of length 1..5 over {0,1,9,10,99,100,999,1000,random}; dotted strings with pre-release suffixes, '
-        'signs, padding, non-ASCII digits, malformed parts; integers for to_str; PEP 440 version pairs x same_major; '
-        'predicate conjunctions incl. malformed; distinct = distinct case JSON; trivial = none')
+               'packaging.version contract (see trusted base): tested, not proved; InvalidVersion is counted as the ValueError it subclasses',
+               '`_()` (gettext) and the message formatting in the except handler are modelled only as far as they can raise '
+               '(formatting a tuple of length != 1 raises TypeError — the empty tuple case)']
+RULE = ('component tuples of length 1..5 over {0,1,9,10,99,100,999,1000,random}; dotted strings with pre-release suffixes (ASCII and non-ASCII digits, '
+        'trailing newline), signs, padding, underscores, malformed parts; component strings for int(); integers for to_str; PEP 440 version pairs x '
+        'same_major; predicate conjunctions incl. blanks/newlines/empty parts/malformed; contract checks on version pairs and triples; '
+        'distinct = distinct case JSON; trivial = none')
 
 def _vu():
     from oslo_utils import versionutils
@@ -26,20 +36,43 @@ def rand_tuple(rng, allow_big=True):
     return [rng.choice(pool) if rng.random() < 0.7 else rng.randint(0, 1200 if allow_big else 999) for _ in range(n)]
 
 SUFF = ['a', 'alpha', 'b', 'beta', 'rc']
+UDIG = ['٣', '१२', '７', '0', '00', '12', '5', '٠١']
+def rand_digits(rng):
+    return str(rng.randint(0, 30)) if rng.random() < 0.7 else rng.choice(UDIG)
+
+_ALT_DIGITS = [0x0660, 0x06F0, 0x0966, 0xFF10]      # Arabic-Indic, Extended Arabic-Indic, Devanagari, fullwidth
+def render_comp(rng, x):
+    """a component as text int() reads back as x: plain, zero padded, or (partly) in non-ASCII decimal digits"""
+    r = rng.random()
+    t = str(x)
+    if r < 0.7: return t
+    if r < 0.8: return '0' + t
+    base = rng.choice(_ALT_DIGITS)
+    if r < 0.9: return ''.join(chr(base + int(ch)) for ch in t)
+    return t[:-1] + chr(base + int(t[-1]))             # only the digit next to the marker is non-ASCII
+
 def rand_verstr(rng):
     t = rand_tuple(rng)
     s = '.'.join(map(str, t))
     r = rng.random()
-    if r < 0.35: s += rng.choice(SUFF) + str(rng.randint(0, 30))
-    elif r < 0.45: s += rng.choice(['x', 'rc', 'a', 'dev1', '-1', 'rc1x', 'RC1', 'c1', 'alpha', 'b2b3', 'rc1\n'])
-    elif r < 0.55:
+    if r < 0.3: s += rng.choice(SUFF) + rand_digits(rng) + rng.choice(['', '', '\n'])
+    elif r < 0.45: s += rng.choice(['x', 'rc', 'a', 'dev1', '-1', 'rc1x', 'RC1', 'c1', 'alpha', 'b2b3', 'rc1\n', 'rc1\n\n', 'rc1 ', 'ab1', 'alph1', 'bet1',
+                                     'r1', 'c1', 'beta', 'alpha1a', 'a1\n', '\n', ' ', 'rc 1', 'rc_1', 'rc+1', 'A1', 'Beta2', 'arc1', 'ba1', 'alphabeta1',
+                                     'a1b1', 'b1\nx', 'rc1\r', 'a١'])
+    elif r < 0.58:
         parts = s.split('.')
         i = rng.randrange(len(parts))
-        parts[i] = rng.choice([' %s', '+%s', '-%s', '%s ', '0%s', '%s_0', '_%s', '%s_', '١%s', '%sa1', '', ' ', '1e3', '0x1'])
+        parts[i] = rng.choice([' %s', '+%s', '-%s', '%s ', '0%s', '%s_0', '_%s', '%s_', '١%s', '%sa1', '', ' ', '1e3', '0x1', '%s__1', '+ %s', '+-%s',
+                               '\t%s\n', '\x1c%s', '%s\x1f', '\xa0%s', '%s ', '%s.', '１%s', 'a%s', '%sb', '+', '-', '_', '%s\n'])
         parts[i] = parts[i] % rng.randint(0, 99) if '%s' in parts[i] else parts[i]
         s = '.'.join(parts)
-    elif r < 0.6: s = rng.choice(['', '.', '1..2', 'a.b', '1.2.', '.1', '٣.٤', '1.2rc', 'rc1', '1rc1.2', '1.2rc1rc2', '1.2beta١'])
+    elif r < 0.64: s = rng.choice(['', '.', '1..2', 'a.b', '1.2.', '.1', '٣.٤', '1.2rc', 'rc1', '1rc1.2', '1.2rc1rc2', '1.2beta١', 'a1', '.a1', '1a1', '1.a1',
+                                    '1a1a1', '1alpha1', '1.2\n', '\n', '1.2a1\n', '1.2\n\n', '1 .2', '1. 2', '-1.-2', '1.-2rc1', '0', '0.0', '000.1'])
     return s
+
+INTS = ['0', '7', '42', ' 7', '7 ', '+7', '-7', '--7', '+-7', '1_000', '1__0', '_1', '1_', '', ' ', '+', '-', '٣', '１２', '1٣', '٣_4', '\t7\n', '\x0b7\x0c',
+        '\x1c7', '7\x1f', '\xa07', '7 ', ' 7', '7　', '0x10', '1e3', '1.0', 'seven', '1 2', '+ 7', '- 7', '７_８', '007', '-0', '+0', '٠', '1a', 'a1',
+        '\x857', '​7', '7\n', '\n7', '7\n\n', '²', '½', '①', '𝟏𝟐', '۱۲۳']
 
 def pep_ver(rng):
     s = ''
@@ -51,31 +84,71 @@ def pep_ver(rng):
     if rng.random() < 0.1: s += '+' + rng.choice(['abc', '1', 'a.1', '1.a'])
     return s
 
+BAD_VERS = ['', 'x', '1.x', '=', '=1', '1..2', '1.2.', 'v', '1!', '!1', '1+', '1-', '1a.b', 'a', '1.0 0', '1,0', '>1', '1.0+', '1.0+a..b', '1 ', ' 1', '\n1', '1\n',
+            'v1', 'V1.0', '1.0A1', '1.0.RC1', '1_0', '1.0-r', '1.0.post', '01', '1.0dev', '1.0.dev.1']
+
 OPS = ['<', '<=', '==', '>', '>=', '!=']
+WS = ['', '', ' ', '  ', '\t', '\n', ' \n', '\r\n', '\x0b', '\x1c', '\xa0', ' ']
 def rand_pred(rng):
     parts = []
     for _ in range(rng.randint(1, 3)):
         r = rng.random()
-        if r < 0.8:
-            parts.append(rng.choice(['', ' ', '  ', '\t']) + rng.choice(OPS) + rng.choice(['', ' ', '  ']) + pep_ver(rng) + rng.choice(['', ' ']))
+        if r < 0.75:
+            parts.append(rng.choice(WS) + rng.choice(OPS) + rng.choice(WS[:6]) + pep_ver(rng) + rng.choice(WS))
+        elif r < 0.8:
+            parts.append(rng.choice(OPS) + rng.choice(WS) + rng.choice(BAD_VERS))
         else:
-            parts.append(rng.choice(['', '1.0', '=1.0', '=>1', '~=1.0', '> =1', '>1 2', '<>', '>=', '== 1.0 ', '\n>=1', '>=1\n', '===1', '<=x']))
+            parts.append(rng.choice(['', ' ', '\n', '1.0', '=1.0', '=>1', '~=1.0', '> =1', '>1 2', '<>', '>=', '<=', '==', '!=', '<', '>', '== 1.0 ', '\n>=1', '>=1\n',
+                                     '===1', '<=x', '<=1', '< =1', '>==1', '>= 1 ', '>=\t1\n', '>=1\n\n', '>=1 \n ', '> = 1', '!1', '! =1', '=<1', '=!1', '>=1;',
+                                     '>=1.0.0 .1', 'x>=1', '> =', '>= =', '>=1\x001', '>=\x001']))
     return ','.join(parts)
 
 def gen_cases(rng, tier):
-    n = 1500 if tier == 'quick' else 40000
+    n = 2200 if tier == 'quick' else 60000
+    # boundary values first
+    for t, sfx in [('1.999', 'rc1'), ('999', 'a0'), ('1٣', 'a1'), ('1.٢', 'beta2'), ('6.7.999', 'rc1'), ('１', 'b1')]:
+        yield {'op': 'suffix', 'v': [int(x) for x in t.split('.')], 'text': t, 'sfx': sfx[:-1], 'd': sfx[-1], 'tail': ''}
+    for v in [[999], [1, 999], [999, 999], [999, 0, 999], [1, 0, 999, 999, 999], [999, 999, 999, 999, 999]]:
+        yield {'op': 'roundtrip', 'v': v}
+        yield {'op': 'str_roundtrip', 'v': v}
+        yield {'op': 'order', 'a': v, 'b': [max(0, x - 1) for x in v]}
+    for s in ['1.2rc1', '1.2rc1\n', '1.2', '1.2\n', ' 1.+2', '1.2RC1', '1.2rc', '', '.', '999.999', '1000.0', '1.2alpha٣', '1٣a1']:
+        yield {'op': 'to_int_str', 's': s}
+    for s in INTS:
+        yield {'op': 'int', 's': s}
+    for p in ['', ',', '>=1.0,', ',>=1.0', '>=1,,<2', '>=', '<=', '==', '<=1', '< =1', '\n>=1.0\n', ' >= 1.0 , < 2', '>=1 0', '>=1.0,<2\n']:
+        yield {'op': 'pred', 'p': p, 'v': '1.5'}
     for _ in range(n):
         r = rng.random()
-        if r < 0.25: yield {'op': 'roundtrip', 'v': rand_tuple(rng)}
-        elif r < 0.35: yield {'op': 'order', 'a': (t := rand_tuple(rng, False)), 'b': [rng.choice([x, x, rng.randint(0, 999)]) for x in t]}
-        elif r < 0.55: yield {'op': 'to_int_str', 's': rand_verstr(rng)}
-        elif r < 0.65: yield {'op': 'to_str', 'n': rng.choice([0, 1, 999, 1000, 1001, 10**6, 10**9 - 1, rng.randint(0, 10**15), rng.randint(0, 10**40)])}
+        if r < 0.12: yield {'op': 'roundtrip', 'v': rand_tuple(rng)}
+        elif r < 0.2: yield {'op': 'str_roundtrip', 'v': rand_tuple(rng)}
+        elif r < 0.28: yield {'op': 'order', 'a': (t := rand_tuple(rng, False)), 'b': [rng.choice([x, x, rng.randint(0, 999)]) for x in t]}
+        elif r < 0.44: yield {'op': 'to_int_str', 's': rand_verstr(rng)}
+        elif r < 0.5: yield {'op': 'to_tuple', 's': rand_verstr(rng)}
+        elif r < 0.58:
+            v = rand_tuple(rng)
+            yield {'op': 'suffix', 'v': v, 'text': '.'.join(render_comp(rng, x) for x in v), 'sfx': rng.choice(SUFF), 'd': rand_digits(rng),
+                   'tail': rng.choice(['', '', '\n'])}
+        elif r < 0.62:
+            base = rng.choice(INTS)
+            yield {'op': 'int', 's': rng.choice(['%s', ' %s', '%s ', '+%s', '-%s', '%s_1', '1_%s', '%s\n']) % base}
+        elif r < 0.68: yield {'op': 'to_str', 'n': rng.choice([0, 1, 999, 1000, 1001, 10**6, 10**9 - 1, rng.randint(0, 10**15), rng.randint(0, 10**40)])}
         elif r < 0.8:
             req = pep_ver(rng)
             q = rng.random()
-            cur = req if q < 0.15 else (req + '.0' if q < 0.25 and req[-1].isdigit() and '+' not in req and 'v' not in req and not any(ch.isalpha() for ch in req) else pep_ver(rng))
+            if q < 0.15: cur = req
+            elif q < 0.25 and req[-1].isdigit() and not any(ch.isalpha() or ch in '+-' for ch in req): cur = req + '.0'
+            elif q < 0.3: cur = rng.choice(BAD_VERS)
+            else: cur = pep_ver(rng)
+            if rng.random() < 0.03: req = rng.choice(BAD_VERS)
             yield {'op': 'compat', 'req': req, 'cur': cur, 'sm': rng.random() < 0.5}
-        else: yield {'op': 'pred', 'p': rand_pred(rng), 'v': pep_ver(rng)}
+        else:
+            p = rand_pred(rng)
+            q = rng.random()
+            used = re.findall(r'(?:<=|>=|<|>|!=|==)\s*([^\s,]+)', p)
+            # the boundary of every comparison is the version named in the predicate itself
+            v = rng.choice(used) if used and q < 0.35 else (rng.choice(BAD_VERS) if q > 0.96 else pep_ver(rng))
+            yield {'op': 'pred', 'p': p, 'v': v}
     yield {'op': 'roundtrip', 'v': []}
 
 def _call(f, *a):
@@ -95,50 +168,77 @@ def impl(c):
         n = _call(vu.convert_version_to_int, tuple(c['v']))
         if isinstance(n, str): return n
         return '%d %s' % (n, vu.convert_version_to_str(n))
+    if op == 'str_roundtrip':
+        n = _call(vu.convert_version_to_int, '.'.join(map(str, c['v'])))
+        if isinstance(n, str): return n
+        return '%d %s' % (n, vu.convert_version_to_str(n))
     if op == 'order':
-        return '%d %d' % (vu.convert_version_to_int(tuple(c['a'])), vu.convert_version_to_int(tuple(c['b'])))
+        return '%s %s' % (_call(vu.convert_version_to_int, tuple(c['a'])), _call(vu.convert_version_to_int, tuple(c['b'])))
     if op == 'to_int_str':
         return str(_call(vu.convert_version_to_int, c['s']))
+    if op == 'to_tuple':
+        r = _call(vu.convert_version_to_tuple, c['s'])
+        return 'None' if isinstance(r, str) else '|'.join(map(str, r))      # any exception = the model's None (the caller turns it into ValueError)
+    if op == 'int':
+        try: return str(int(c['s']))
+        except ValueError: return 'None'
+    if op == 'suffix':
+        base = c['text']
+        return '%s %s' % (_call(vu.convert_version_to_int, base), _call(vu.convert_version_to_int, base + c['sfx'] + c['d'] + c['tail']))
     if op == 'to_str':
         return vu.convert_version_to_str(c['n'])
     if op == 'compat':
         try: return str(vu.is_compatible(c['req'], c['cur'], same_major=c['sm']))
         except Exception as e: return _cls(e)
     if op == 'pred':
-        # R: what the implementation's own predicate regex extracts (the part the model covers)
-        rx = []
-        for part in c['p'].split(','):
-            m = vu.VersionPredicate._PREDICATE_MATCH.match(part)
-            if not m: rx = None; break
-            rx.append('%s %s' % m.groups())
-        R = 'None' if rx is None else '|'.join(rx)
         try:
             p = vu.VersionPredicate(c['p'])
-        except Exception as e: return 'R:%s F:init:%s' % (R, _cls(e))
-        try: return 'R:%s F:%s' % (R, p.satisfied_by(c['v']))
-        except Exception as e: return 'R:%s F:%s' % (R, _cls(e))
+        except Exception as e:
+            return 'init:' + _cls(e)
+        try: return str(p.satisfied_by(c['v']))
+        except Exception as e: return _cls(e)
     raise KeyError(op)
 
 def encode(c):
     op = c['op']
     if op == 'roundtrip': return ['roundtrip'] + [str(x) for x in c['v']]
+    if op == 'str_roundtrip': return ['str_roundtrip', '.'.join(map(str, c['v']))]
     if op == 'order': return ['order', ','.join(map(str, c['a'])), ','.join(map(str, c['b']))]
-    if op == 'to_int_str': return ['to_int_str', c['s']]
+    if op in ('to_int_str', 'to_tuple', 'int'): return [op, c['s']]
+    if op == 'suffix':
+        base = c['text']
+        return ['suffix', base, base + c['sfx'] + c['d'] + c['tail']]
     if op == 'to_str': return ['to_str', str(c['n'])]
     if op == 'pred': return ['parse_pred', c['p']]
     return None
 
 def decode(c, out):
+    if c['op'] == 'pred':
+        # the model parses the predicate text; the version library (the contract instance) supplies parsing and comparison
+        import packaging.version as pv
+        if out == 'None': return 'init:EXN:ValueError'
+        pairs = []
+        for item in out.split('|'):
+            o, _, text = item.partition(' ')
+            try: pairs.append((o, pv.Version(text)))
+            except ValueError: return 'init:EXN:ValueError'
+        try: v = pv.Version(c['v'])
+        except ValueError: return 'EXN:ValueError'
+        return str(all(_M[o](v, x) for o, x in pairs))
     return out
 
-def project(c, io):
-    if c['op'] == 'pred':
-        return io[2:io.index(' F:')]
-    return io
+_M = {'<': operator.lt, '<=': operator.le, '==': operator.eq, '>': operator.gt, '>=': operator.ge, '!=': operator.ne}
+_BAD = re.compile(r'[^\d\s+\-_]')
+_SUFFIXED = re.compile(r'(?s).*\d(a|alpha|b|beta|rc)\d+\n?')
+
+def _fold(comps):
+    want = 0
+    for x in comps: want = want * 1000 + x
+    return want
 
 def oracle(c, io):
     op = c['op']
-    if op == 'roundtrip':
+    if op in ('roundtrip', 'str_roundtrip'):
         v = c['v']
         if v and all(0 <= x <= 999 for x in v) and v[0] != 0:
             want = '.'.join(map(str, v))
@@ -146,22 +246,31 @@ def oracle(c, io):
                 return 'round trip of %r gives %r' % (v, io)
     elif op == 'order':
         a, b = c['a'], c['b']
+        if 'EXN' in io: return 'convert_version_to_int raised on components within 0..999: %r, %r -> %s' % (a, b, io)
         na, nb = map(int, io.split())
         if ((na > nb) - (na < nb)) != ((a > b) - (a < b)):
             return 'order of %r,%r not preserved: %d,%d' % (a, b, na, nb)
+    elif op == 'suffix':
+        # an alpha/beta/rc suffix (marker + digits) on the last component is ignored
+        a, b = io.split(' ')
+        if a != b: return 'suffix %r not ignored on %r: %s vs %s' % (c['sfx'] + c['d'] + c['tail'], c['text'], a, b)
+        if c['v'] and all(0 <= x <= 999 for x in c['v']) and a != str(_fold(c['v'])):
+            return 'convert_version_to_int(%r) = %s' % (c['v'], a)
     elif op == 'to_int_str':
         s = c['s']
-        import re
         m = re.fullmatch(r'(\d+(?:\.\d+)*)((?:a|alpha|b|beta|rc)\d+)?', s, re.A)
         if m:
             comps = [int(x) for x in m.group(1).split('.')]
-            want = 0
-            for x in comps: want = want * 1000 + x
-            if io != str(want): return 'convert_version_to_int(%r) = %s, expected %d' % (s, io, want)
+            want = _fold(comps)
+            # the property speaks about components in 0..999; beyond that only "no exception other than ValueError" is demanded
+            if all(x <= 999 for x in comps) and io != str(want): return 'convert_version_to_int(%r) = %s, expected %d' % (s, io, want)
         else:
             parts = s.split('.')
-            if any(re.search(r'[^\d\s+\-_]', p) for p in parts[:-1]) or any(p.strip() == '' for p in parts[:-1]):
-                if io != 'EXN:ValueError': return 'non-numeric component in %r gives %s' % (s, io)
+            # a component with a character int() can never accept raises ValueError; in the last component
+            # only when it does not end with a suffix the regex strips
+            nonnum = any(_BAD.search(p) or p.strip() == '' for p in parts[:-1]) or \
+                     ((_BAD.search(parts[-1]) and not _SUFFIXED.fullmatch(parts[-1])) or parts[-1].strip() == '')
+            if nonnum and io != 'EXN:ValueError': return 'non-numeric component in %r gives %s' % (s, io)
         if io.startswith('EXN:') and io != 'EXN:ValueError':
             return 'convert_version_to_int(%r) raised %s' % (s, io)
     elif op == 'compat':
@@ -170,10 +279,8 @@ def oracle(c, io):
         except ValueError:
             return None if io == 'EXN:ValueError' else 'invalid version accepted: %s' % io
         want = (cu['key'] >= r['key']) and (not c['sm'] or r['major'] == cu['major'])
-        # epoch: "major" in packaging is release[0]
         if io != str(want): return 'is_compatible(%r,%r,%r) = %s, PEP 440 says %s' % (c['req'], c['cur'], c['sm'], io, want)
     elif op == 'pred':
-        import re
         preds = []
         ok = True
         for p in c['p'].split(','):
@@ -182,17 +289,55 @@ def oracle(c, io):
             try: pep440.parse(m.group(2))
             except ValueError: ok = False; break
             preds.append((m.group(1), m.group(2)))
-        io = io[io.index(' F:') + 3:]
         if not ok:
             return None if io == 'init:EXN:ValueError' else 'malformed predicate %r gives %s' % (c['p'], io)
-        if io.startswith('init:') or io.startswith('EXN'):
+        if io.startswith('init:'):
             return 'well-formed predicate %r gives %s' % (c['p'], io)
-        import operator
-        M = {'<': operator.lt, '<=': operator.le, '==': operator.eq, '>': operator.gt, '>=': operator.ge, '!=': operator.ne}
-        want = all(M[o](pep440.cmp(c['v'], v), 0) for o, v in preds)
+        try: pep440.parse(c['v'])
+        except ValueError:
+            return None if io == 'EXN:ValueError' else 'satisfied_by(%r) on an invalid version gives %s' % (c['v'], io)
+        want = all(_M[o](pep440.cmp(c['v'], v), 0) for o, v in preds)
         if io != str(want):
             return 'satisfied_by(%r, %r) = %s, expected %s' % (c['p'], c['v'], io, want)
     return None
+
+def extra_checks(rng, tier):
+    """the packaging.version contract used by the theorems (abstract total preorder + major), tested on
+    generated PEP 440 versions, and compared with the independent implementation tools/pep440.py"""
+    import packaging.version as pv
+    n = 40 if tier == 'quick' else 160
+    texts = []
+    while len(texts) < n:
+        t = pep_ver(rng)
+        if t not in texts: texts.append(t)
+    vs = []
+    for t in texts + BAD_VERS:
+        try: v = pv.Version(t)
+        except Exception as e: v = e
+        try: k = pep440.parse(t)
+        except ValueError: k = None
+        msg = None
+        if isinstance(v, Exception):
+            if not isinstance(v, ValueError): msg = 'Version(%r) raised %s, not a ValueError' % (t, type(v).__name__)
+            elif k is not None: msg = 'Version(%r) rejected, PEP 440 accepts it' % t
+        elif k is None: msg = 'Version(%r) accepted, PEP 440 rejects it' % t
+        elif v.major != k['major']: msg = 'Version(%r).major = %r, release[0] = %r' % (t, v.major, k['major'])
+        yield ('contract-parse', {'op': 'contract', 'a': t}, msg)
+        if not isinstance(v, Exception) and k is not None: vs.append((t, v, k['key']))
+    for ta, a, ka in vs:
+        for tb, b, kb in vs:
+            msg = None
+            le, ge, eq = a <= b, a >= b, a == b
+            if not (le or ge): msg = 'order not total'
+            elif (le and ge) != eq: msg = 'antisymmetry up to == fails'
+            elif (a < b) != (le and not eq) or (a > b) != (ge and not eq) or (a != b) != (not eq): msg = '<, >, != are not derived from <=, =='
+            elif le != (ka <= kb) or eq != (ka == kb): msg = 'order differs from PEP 440 (%r vs %r)' % (le, ka <= kb)
+            yield ('contract-pair', {'op': 'contract', 'a': ta, 'b': tb}, msg and '%s on %r, %r' % (msg, ta, tb))
+    for _ in range(3000 if tier == 'quick' else 60000):
+        (ta, a, _), (tb, b, _), (tc, c3, _) = rng.choice(vs), rng.choice(vs), rng.choice(vs)
+        msg = None
+        if a <= b and b <= c3 and not a <= c3: msg = 'transitivity fails on %r <= %r <= %r' % (ta, tb, tc)
+        yield ('contract-triple', {'op': 'contract', 'a': ta, 'b': tb, 'c': tc}, msg)
 
 def classify(c, io):
     return c['op'] + (':exn' if 'EXN' in io else '')
@@ -201,10 +346,14 @@ def search(rng, budget):
     for _ in range(budget):
         yield from gen_cases(rng, 'quick')
 
-LEVEL_TEXT = ('Theorems for all tuples of any length: radix round trip (components 0..999, first non-zero), order preservation for equal '
-              'lengths, is_compatible / satisfied_by against their reading for any version order; the radix, separator, regexes and operator '
-              'map are regenerated from the source on every run, convert_version_to_str is translated statement by statement and proved equal '
-              'to the model. Suffix stripping, predicate parsing and the packaging order are decided by correspondence/oracle only (partial).')
-LEVEL_NOTE = ('Trusted: Coq kernel; translator (AST template for the reduce lambda, py2gal for convert_version_to_str, re._parser for regexes); '
-              'CPython int()/str()/re semantics as modelled in Base/; packaging.version as an abstract total preorder (tested against an '
-              'independent PEP 440 implementation). Closed under the global context (no axioms).')
+LEVEL_TEXT = ('Theorems, all unbounded (any length, any string): radix round trip and order on tuples and on dotted strings; convert_version_to_int on '
+              'strings end to end (generated suffix regex through the backtracking engine, split, int(), reduce): suffix ignored for every alternative of '
+              'the regex + digits (+ final newline), ValueError exactly when a component is not an int() literal (int() acceptance characterised exactly), '
+              'no other outcome; VersionPredicate: the parser returns exactly the (operator, version) pairs for every comma-joined list of well-formed '
+              'comparisons, the generated regex is characterised completely (functional description of the matcher, accepted <-> blanks op blanks version '
+              'blanks), rejection families (blank/empty part, no operator, empty version, inner blanks), regex alternatives = keys of the operator map; '
+              'is_compatible / satisfied_by / __init__ over the packaging contract. Regexes, template, radix, separator, operator map are regenerated; '
+              'the functions are translated statement by statement and proved equal to the model (*_equiv).')
+LEVEL_NOTE = ('Trusted: Coq kernel; translator (py2gal + the C17 extension in gen_versionutils.py; re._parser for regexes); CPython int()/str()/re '
+              'semantics as modelled in Base/ (int() tied by correspondence); packaging.version as an abstract structure whose contract clauses are '
+              'tested on every run and compared with an independent PEP 440 implementation. Closed under the global context (no axioms).')
